@@ -44,6 +44,24 @@ PHY_PRE = [
     (r'link_layer\.defered_ll_control_pdu_\s*= pdu;', 'self->defered_ll_control_pdu_ = *pdu;', 1), (r'::bluetoe::details::read_16bit\(', 'read_16bit(', 1),
     (r'link_layer\.procedure_timeout_ = delta_time\(\);', 'self->procedure_timeout_ = 0;', '*'), (r'\blink_layer\.', 'self->', '+'), (r'\bcommit = false;', '*commit = false;', '+'),
 ]
+ADV_PRE = [
+    (r'using namespace ::bluetoe::details;', '', '*'), (r'assert\( state_ == state::advertising \);', 'BT_ASSERT( self->state_ == state_advertising );', '*'),
+    (r'device_address remote_address;', 'int remote_address = 0;', 1), (r'this->handle_adv_receive\( receive, remote_address \)', 'll_handle_adv_receive( receive )', 1),
+    (r'layout_t::body\( receive \)\.first', '( receive->buffer + 2 )', 1),
+    (r'channels_\.reset\( &body\[ 28 \], body\[ 33 \] & 0x1f \)', 'll_channels_reset_hop( &body[ 28 ], body[ 33 ] & 0x1f )', 1),
+    (r'parse_timing_parameters_from_connect_request\( body \)', 'll_parse_timing_parameters_from_connect_request( body )', 1),
+    (r'this->reset_connection_state\(\);', 'll_reset_connection_state();', 1),
+    (r'sleep_clock_accuracy\( body \) \+ device_sleep_clock_accuracy::accuracy_ppm', 'll_sleep_clock_accuracy( body )', 1),
+    (r'= supported_features;', '= G_supported_features;', '*'), (r'= delta_time\(\);', '= 0;', '*'),
+    (r'this->set_access_address_and_crc_init\( read_32bit\( &body\[ 12 \] \), read_24bit\( &body\[ 16 \] \) \);', 'll_set_access_address_and_crc_init( &body[ 12 ], &body[ 16 ] );', 1),
+    (r'this->reset_pdu_buffer\(\);', 'll_reset_pdu_buffer();', 1), (r'this->reset_connection_parameter_request\(\);', 'll_reset_connection_parameter_request();', 1),
+    (r'(?<![\w.])setup_next_connection_event\(\);', 'll_setup_next_connection_event();', 1),
+    (r'this->connection_request\( connection_addresses\( address_, remote_address \) \);', 'll_connection_request();', 1), (r'this->handle_stop_advertising\(\);', 'll_handle_stop_advertising();', 1),
+    (r'connection_data_ = connection_data_t\(\);', 'll_new_connection_data();', 1), (r'connection_data_\.remote_connection_created\( remote_address \);', 'll_remote_connection_created();', 1),
+    (r'this->connection_requested\( details\(\), connection_data_, static_cast< radio_t& >\( \*this \) \);', 'cb_connection_requested();', 1),
+    (r'this->template handle_connection_events< link_layer< Server, ScheduledRadio, Options\.\.\. > >\(\);', 'll_handle_connection_events();', 1),
+    (r'\bstate::', 'state_', '*'),
+]
 RX_PRE = [
     (r'\bll_result result = ll_result::go_ahead;', 'enum ll_result result = ll_result_go_ahead;', 1),
     (r'!defered_ll_control_pdu_\.empty\(\)', '( self->defered_ll_control_pdu_.buffer != 0 || self->defered_ll_control_pdu_.size != 0 )', '*'),
@@ -66,18 +84,19 @@ RX_LOOP = dict(header=r'for \( struct wbuf pdu = ll_next_ll_l2cap_received\(\);'
         && (result == ll_result_go_ahead || result == ll_result_disconnect) && (int)self->state_ == W_state)
     __CPROVER_decreases((G_rx.total - G_rx.freed) * 2 + (pdu.size != 0 ? 1 : 0))""")
 PHYS = r'struct phy_update_request_impl\s*(?=\{)'
-OPS = ['lld_data_pdu_code', 'LL_PHY_RSP', 'LL_PHY_UPDATE_IND', 'LL_CONNECTION_PARAM_REQ', 'LL_VERSION_IND', 'LL_PHY_REQ', 'LL_VERSION_NR', 'll_control_pdu_code', 'connection_ll_response_timeout']
+OPS = ['connection_timeout', 'lld_data_pdu_code', 'LL_PHY_RSP', 'LL_PHY_UPDATE_IND', 'LL_CONNECTION_PARAM_REQ', 'LL_VERSION_IND', 'LL_PHY_REQ', 'LL_VERSION_NR', 'll_control_pdu_code', 'connection_ll_response_timeout']
 EX = dict(llc.BITS_EXTRACTS,
     **{k: dict(kind='expr', file=LL, scope=CLS, locate=r'static constexpr std::uint8_t\s+%s\s*=' % k) for k in OPS},
     company_identifier=llc.EX['company_identifier'], ll_result=llc.EX['ll_result'], ll_state=llc.EX['ll_state'],
     default_timeout=dict(kind='expr', file=LL, scope=CLS, locate=r'static constexpr std::uint32_t\s+default_procedure_timeout_us\s*='),
     num_windows=dict(kind='expr', file=LL, scope=CLS, locate=r'static constexpr unsigned\s+num_windows_til_timeout\s*='),
-    fields=dict(kind='fields', file=LL, scope=CLS, names=['disconnecting_reason_', 'connection_interval_', 'peripheral_latency_', 'connection_timeout_', 'procedure_timeout_', 'defered_conn_event_counter_', 'defered_ll_control_pdu_', 'termination_send_',
+    fields=dict(kind='fields', file=LL, scope=CLS, names=['disconnecting_reason_', 'used_features_', 'cumulated_sleep_clock_accuracy_', 'connection_parameters_request_use_signaling_channel_', 'version_indication_received_', 'connection_interval_', 'peripheral_latency_', 'connection_timeout_', 'procedure_timeout_', 'defered_conn_event_counter_', 'defered_ll_control_pdu_', 'termination_send_',
                 'pending_event_', 'restart_user_timer_requested_', 'transmit_window_size_', 'proposed_interval_min_', 'proposed_interval_max_', 'proposed_latency_', 'proposed_timeout_', 'connection_parameters_request_pending_',
                 'connection_parameters_request_running_', 'phy_update_request_pending_', 'phy_update_request_running_', 'version_indication_sent_', 'phy_update_request_transmit_', 'phy_update_request_receive_', 'remote_versions_request_pending_'],
                 type_map={'delta_time': 'uint32_t', 'write_buffer': 'struct wbuf', 'volatile bool': 'bool'}),
     timeout=dict(file=LL, locate=T + r'void ' + Q + r'timeout\(\)', pre=PRE),
     end_event=dict(file=LL, locate=T + r'void ' + Q + r'end_event\( connection_event_events evts \)', pre=PRE),
+    adv_received=dict(file=LL, locate=T + r'void ' + Q + r'adv_received\( const read_buffer& receive \)', pre=ADV_PRE),
     disconnect=dict(file=LL, locate=T + r'void ' + Q + r'disconnect\( std::uint8_t reason \)', pre=PRE),
     tpc=dict(file=LL, locate=T + r'void ' + Q + r'transmit_pending_control_pdus\(\)', pre=PRE),
     received=dict(file=LL, locate=T + r'typename ' + Q + r'll_result ' + Q + r'handle_received_data\(\)', pre=RX_PRE, loops=[RX_LOOP],
@@ -217,6 +236,33 @@ __CPROVER_ensures(!(IS_PHY_IND && W_phy_running) ==> (self->procedure_timeout_ =
 __CPROVER_ensures(!(IS_PHY_REQ || IS_PHY_IND) ==> (!__CPROVER_return_value && G_o.fills == 0 && *commit == W_commit && self->defered_ll_control_pdu_.buffer == 0 && G_o.phy_cb == 0))
 __CPROVER_assigns(__CPROVER_object_whole(self), G_o, *commit)
 {{phy_req}}
+/* ---- adv_received: a connection request that is accepted starts a NEW connection - nothing of the last one survives */
+enum { A_RESET_STATE = 1, A_RESET_PDU, A_RESET_CPR, A_SETUP, A_CONN_REQUEST, A_STOP_ADV, A_NEW_DATA, A_REMOTE_CREATED, A_CB_REQUESTED, A_EVENTS };
+struct { size_t n; int seq[12]; } G_a; uint16_t G_supported_features; bool W_conn_req, W_map_ok, W_timing_ok;
+#define AREC(c) do { if (G_a.n < 12) G_a.seq[G_a.n] = (c); ++G_a.n; } while (0)
+static inline bool ll_handle_adv_receive(const struct rbuf* r) { return W_conn_req; }
+static inline bool ll_channels_reset_hop(const uint8_t* map, uint8_t hop) { return W_map_ok; }
+static inline bool ll_parse_timing_parameters_from_connect_request(const uint8_t* body) { return W_timing_ok; }
+static inline unsigned ll_sleep_clock_accuracy(const uint8_t* body) { return nondet_u16(); }
+static inline void ll_set_access_address_and_crc_init(const uint8_t* aa, const uint8_t* crc) {}
+static inline void ll_reset_connection_state(void) { AREC(A_RESET_STATE); } static inline void ll_reset_pdu_buffer(void) { AREC(A_RESET_PDU); } static inline void ll_reset_connection_parameter_request(void) { AREC(A_RESET_CPR); }
+static inline void ll_connection_request(void) { AREC(A_CONN_REQUEST); } static inline void ll_handle_stop_advertising(void) { AREC(A_STOP_ADV); } static inline void ll_new_connection_data(void) { AREC(A_NEW_DATA); }
+static inline void ll_remote_connection_created(void) { AREC(A_REMOTE_CREATED); } static inline void cb_connection_requested(void) { AREC(A_CB_REQUESTED); }
+#define ACCEPTED (W_conn_req && W_map_ok && W_timing_ok)
+#define A_HAS(c) (G_a.seq[0] == (c) || G_a.seq[1] == (c) || G_a.seq[2] == (c) || G_a.seq[3] == (c) || G_a.seq[4] == (c) || G_a.seq[5] == (c) || G_a.seq[6] == (c) || G_a.seq[7] == (c) || G_a.seq[8] == (c))
+void adv_received(struct ll* self, const struct rbuf* receive)
+__CPROVER_requires(__CPROVER_is_fresh(self, sizeof(struct ll)) && self->state_ == state_advertising && __CPROVER_is_fresh(receive, sizeof(struct rbuf)) && receive->size == 40 && __CPROVER_is_fresh(receive->buffer, 40) && G_a.n == 0 && G_o.n == 0)
+/* every per-connection flag of the link layer starts afresh: no request pending or running, no version indication seen or sent, no response time out running (C27) */
+__CPROVER_ensures(ACCEPTED ==> (self->state_ == state_connecting && !self->connection_parameters_request_pending_ && !self->connection_parameters_request_running_ && !self->connection_parameters_request_use_signaling_channel_
+    && !self->phy_update_request_pending_ && !self->phy_update_request_running_ && !self->remote_versions_request_pending_ && !self->version_indication_received_ && !self->version_indication_sent_
+    && !self->pending_event_ && self->procedure_timeout_ == 0 && self->disconnecting_reason_ == connection_timeout && self->used_features_ == G_supported_features))
+/* the buffers, the connection parameter request state and the connection data (client configurations C09, security state C28 / C33) are new; then - and only then - 'connection requested' is reported, once (C29) */
+__CPROVER_ensures(ACCEPTED ==> (G_a.n == 8 && G_a.seq[0] == A_RESET_STATE && G_a.seq[1] == A_RESET_PDU && G_a.seq[2] == A_RESET_CPR && G_a.seq[3] == A_CONN_REQUEST && G_a.seq[4] == A_STOP_ADV && G_a.seq[5] == A_NEW_DATA
+    && G_a.seq[6] == A_REMOTE_CREATED && G_a.seq[7] == A_CB_REQUESTED && G_o.n == 2 && G_o.seq[0] == C_SETUP && G_o.seq[1] == C_EVENTS))
+/* anything else leaves the advertiser as it is and is not reported */
+__CPROVER_ensures(!ACCEPTED ==> (self->state_ == state_advertising && G_a.n == 0 && G_o.n == 0))
+__CPROVER_assigns(__CPROVER_object_whole(self), G_a, G_o)
+{{adv_received}}
 /* ---- disconnect( reason ): the local host ends the connection. The LL_TERMINATE_IND and whatever is waiting in the transmit buffer are still to be sent: */
 size_t G_enc_resets;
 static inline void ll_sync_disconnect(void) {} static inline void ll_reset_encryption(void) { ++G_enc_resets; }
@@ -285,10 +331,11 @@ __CPROVER_assigns(__CPROVER_object_whole(self), G_rx)
 {{received}}
 #define SETUP struct ll* s; W_t = nondet_u32(); W_out_pending = nondet_bool(); W_recv_disconnect = nondet_bool(); W_pending_disconnect = nondet_bool(); W_alloc_ok = nondet_bool(); W_cpr_rsp_pending = nondet_bool(); W_counter_after = nondet_u16(); \
   W_state = nondet_int(); W_proc = nondet_u32(); W_conn_timeout = nondet_u32(); W_interval = nondet_u32(); W_term_sent = nondet_bool(); W_deferred = nondet_bool(); W_instant = nondet_u16(); W_cpr_pending = nondet_bool(); W_phy_pending = nondet_bool(); W_ver_pending = nondet_bool(); W_version_sent = nondet_bool(); W_phy_running = nondet_bool(); \
-  G_o = (struct o_rec){ 0 }; W_op = nondet_u8(); W_size = nondet_u8(); W_pdu[3] = nondet_u8(); W_pdu[4] = nondet_u8(); W_pdu[5] = nondet_u8(); W_pdu[6] = nondet_u8(); W_commit = nondet_bool(); G_set_phy.calls = 0; G_enc_resets = 0; G_rx = (struct rx_rec){ 0 }; G_rx.total = nondet_size(); G_rx.order_ok = true; G_k = nondet_size(); BT_KNOWN_EXCLUDE()
+  G_o = (struct o_rec){ 0 }; W_op = nondet_u8(); W_size = nondet_u8(); W_pdu[3] = nondet_u8(); W_pdu[4] = nondet_u8(); W_pdu[5] = nondet_u8(); W_pdu[6] = nondet_u8(); W_commit = nondet_bool(); G_set_phy.calls = 0; G_enc_resets = 0; G_a.n = 0; G_supported_features = nondet_u16(); W_conn_req = nondet_bool(); W_map_ok = nondet_bool(); W_timing_ok = nondet_bool(); G_rx = (struct rx_rec){ 0 }; G_rx.total = nondet_size(); G_rx.order_ok = true; G_k = nondet_size(); BT_KNOWN_EXCLUDE()
 void h_ll_timeout(void) { SETUP; ll_timeout(s); BT_CANARY(); }
 void h_ll_end_event(void) { SETUP; struct connection_event_events e; ll_end_event(s, e); BT_CANARY(); }
 void h_transmit_pending_control_pdus(void) { SETUP; transmit_pending_control_pdus(s); BT_CANARY(); }
+void h_adv_received(void) { SETUP; struct rbuf* r; adv_received(s, r); BT_CANARY(); }
 void h_ll_disconnect(void) { SETUP; ll_disconnect(s, nondet_u8()); BT_CANARY(); }
 void h_handle_received_data(void) { SETUP; handle_received_data(s); BT_CANARY(); }
 void h_handle_pending_phy_request(void) { SETUP; handle_pending_phy_request(s, W_op); BT_CANARY(); }
